@@ -168,9 +168,22 @@ class Model(object):
         elif s == 'org':
             self.pc += 16
             self.lines.append('\torg %d' % self.pc)
+        elif s == 'resdup':
+            # a reservation whose DUP body has several elements: 3 x (?, ?) = 6 units
+            if CPUS[self.cpu][2] == 'db':
+                self.lines.append('\tdb 3 dup (?, ?)')
+                self.pc += 6
+            else:
+                self.lines.append('\torg %d' % (self.pc + 6))
+                self.pc += 6
         elif s == 'seg':
             if self.hasdata and self.cpu != 'z80':
-                self.lines += ['\tsegment data', '\torg 40', '\tsegment code']
+                # one byte laid down in the (byte-granular) data segment: its record carries that segment's granularity
+                self.nseg = getattr(self, 'nseg', 0) + 1
+                a = 40 + self.nseg
+                v = self.nextval()
+                self.lines += ['\tsegment data', '\torg %d' % a, '\t%s %d' % ('db' if self.cpu != '16c84' else 'data', v), '\tsegment code']
+                self.mem[(2, 1, a)] = (v, CPUS[self.cpu][0])
             else:
                 self.lines += ['\tsegment code']
         elif s == 'cpu':
@@ -272,7 +285,7 @@ def subspaces(tier):
                     for fin in ('none', 'res1', 'org'):
                         yield {'k': 'b', 't': t, 'prefix': p, 'tail': tail, 'fin': fin}
     subs.append(('b:record-limit', fam_b()))
-    ops = ['E1', 'E511', 'E512', 'E513', 'B511', 'B512', 'B513', 'res1', 'org', 'seg', 'cpu', 'end', 'endbare']
+    ops = ['E1', 'E511', 'E512', 'E513', 'B511', 'B512', 'B513', 'res1', 'resdup', 'org', 'seg', 'cpu', 'end', 'endbare']
     n = 3 if q else 4
 
     def fam_c():
